@@ -29,7 +29,8 @@ pub enum AStep {
     /// pinned sleep(d0), optionally polled once, then reset to now + d1 and awaited
     Reset { d0: u64, d1: u64, poll_first: bool },
     /// behaviour: 0 burst, 1 delay, 2 skip; after each tick the task sleeps `work`; `off` > 0 = interval_at(now + off, ..)
-    Interval { period: u64, behaviour: u8, ticks: u8, work: u64, #[serde(default)] off: u64 },
+    /// `work` is slept after every tick, or (`once`) only after the first one: the remaining ticks then catch up in one poll
+    Interval { period: u64, behaviour: u8, ticks: u8, work: u64, #[serde(default)] off: u64, #[serde(default)] once: bool },
     /// wake task `to` of the same module
     Notify { to: u16 },
     /// wait for one notification
@@ -202,7 +203,7 @@ async fn run_task(m: usize, ti: usize, inc: u16, start_ns: u64, spec: TaskSpec, 
                 s.await;
                 log(si, T_DONE, 0);
             }
-            AStep::Interval { period, behaviour, ticks, work, off } => {
+            AStep::Interval { period, behaviour, ticks, work, off, once } => {
                 let mut iv = if *off > 0 {
                     des::time::interval_at(SimTime::now() + Duration::from_nanos(*off), Duration::from_nanos((*period).max(1)))
                 } else {
@@ -215,8 +216,8 @@ async fn run_task(m: usize, ti: usize, inc: u16, start_ns: u64, spec: TaskSpec, 
                 });
                 for k in 0..*ticks {
                     let inst = iv.tick().await;
-                    log(si, T_TICK + u32::from(k), inst.as_nanos() as u64);
-                    if *work > 0 {
+                    log(si, T_TICK + u32::from(k).min(99), inst.as_nanos() as u64);
+                    if *work > 0 && (!*once || k == 0) {
                         sleep(Duration::from_nanos(*work)).await;
                     }
                 }
@@ -448,7 +449,7 @@ pub fn evaluate(tasks: &[TaskSpec], start: u64, ext: &[(u64, usize)]) -> Vec<Exp
                                 s.pc += 1;
                             }
                         }
-                        AStep::Interval { period, behaviour, ticks, work, off } => {
+                        AStep::Interval { period, behaviour, ticks, work, off, once } => {
                             let period = period.max(1);
                             // sub: 0 = not created; 1 + 2k = waiting for tick k; 2 + 2k = working after tick k
                             if s.sub == 0 {
@@ -471,7 +472,7 @@ pub fn evaluate(tasks: &[TaskSpec], start: u64, ext: &[(u64, usize)]) -> Vec<Exp
                                 break;
                             }
                             let d = s.iv_deadline;
-                            out.push(Expect { task: ti, step: pc, time: now, codes: vec![T_TICK + k], val: Some(d) });
+                            out.push(Expect { task: ti, step: pc, time: now, codes: vec![T_TICK + k.min(99)], val: Some(d) });
                             s.iv_deadline = if now > d {
                                 match behaviour % 3 {
                                     0 => d + period,
@@ -481,7 +482,7 @@ pub fn evaluate(tasks: &[TaskSpec], start: u64, ext: &[(u64, usize)]) -> Vec<Exp
                             } else {
                                 d + period
                             };
-                            if work > 0 {
+                            if work > 0 && (!once || k == 0) {
                                 s.wake = Some(now + work);
                                 s.sub += 1;
                             } else {
@@ -549,6 +550,36 @@ pub fn check_tasks(prog: &NetProgram, res: &NetResult, prop: &str, info: &mut Ru
     let prog = &normalise(prog);
     if let Some(e) = &res.escaped_panic {
         info.violate(Violation::new(prop, "panic", format!("building or running the model panicked: {e}")));
+        return;
+    }
+    // des module blocks (C06): every message offered to the block's gate is answered in the instant it arrives
+    if prop == "C06" && prog.blocks.first() == Some(&5) {
+        let limit_stopped = res.ok.map_or(true, |o| o.2 > 0);
+        if !limit_stopped && !res.trace.iter().any(|r| matches!(r.ev, Ev::PanicNow | Ev::ShutdownReq { .. })) {
+            for r in &res.trace {
+                if let Ev::Offer { uid, gate: 0, delay_ns: 0, .. } = &r.ev {
+                    if r.m != 0 {
+                        continue;
+                    }
+                    info.probe("block_handler_awaits_spawned_worker");
+                    let done: Vec<u64> = res.block_log.iter().filter(|b| b.2 == *uid).map(|b| b.0).collect();
+                    match done.first() {
+                        None => {
+                            info.violate(Violation::new("C06", "never-resumed", format!(
+                                "the AsyncFn block received message {uid:#x} at {} ns; its handler awaits a worker task it spawned and never continued", r.t)));
+                            return;
+                        }
+                        Some(t) if *t != r.t => {
+                            info.violate(Violation::new("C06", "resumed-late", format!(
+                                "the AsyncFn block received message {uid:#x} at {} ns; its handler awaits a worker task it spawned and continued only at {t} ns", r.t)));
+                            return;
+                        }
+                        _ => {}
+                    }
+                }
+            }
+            info.nontrivial = !res.block_log.is_empty();
+        }
         return;
     }
     let maxp = max_polls();
@@ -756,7 +787,7 @@ fn gen_timer_step(rng: &mut Rng) -> AStep {
                 4 => period + period / 2, // late by half a period
                 _ => 3 * period + 10 * MS,
             };
-            AStep::Interval { period, behaviour: rng.below(3) as u8, ticks: 1 + rng.below(5) as u8, work, off: if rng.chance(1, 3) { 10 * MS * (1 + rng.below(7)) } else { 0 } }
+            AStep::Interval { period, behaviour: rng.below(3) as u8, ticks: 1 + rng.below(5) as u8, work, off: if rng.chance(1, 3) { 10 * MS * (1 + rng.below(7)) } else { 0 }, once: false }
         }
     }
 }
@@ -798,7 +829,33 @@ pub fn gen_c06(rng: &mut Rng, tier: Tier) -> NetProgram {
     // most runs stay below the executor's per-turn budget; a few go far beyond it
     let big = rng.chance(1, 12);
     let cap = if tier == Tier::Thorough { 3000 } else { 300 };
-    match rng.below(4) {
+    if rng.chance(1, 8) {
+        // a des AsyncFn block whose handler hands every message to a freshly spawned worker task and awaits it: the
+        // handler's reaction to a message completes in the instant the message arrives
+        spec.gates = vec![("o".into(), 1)];
+        let nb = 1 + rng.small(6);
+        let mut t = rng.below(3) * 500 * MS;
+        for _ in 0..nb {
+            let n = 1 + rng.small(2) as usize;
+            spec.beats.push(crate::net::Beat { at_ns: t, acts: (0..n).map(|_| crate::net::Act::Send { gate: 0, delay_ns: 0, body: 0 }).collect() });
+            t += MS * (1 + rng.below(2000));
+        }
+        spec.chained = rng.chance(1, 2);
+        prog.blocks = vec![5];
+        prog.modules.push(spec);
+        prog.order = vec![0];
+        return prog;
+    }
+    match rng.below(5) {
+        4 => {
+            // an interval that fell far behind catches up: all missed ticks complete in the instant the task comes back
+            let n = if rng.chance(1, 2) { 130 + rng.below(120) as u8 } else { 2 + rng.below(100) as u8 };
+            let period = MS * (1 + rng.below(20));
+            spec.tasks.push(TaskSpec { local, join: 1, steps: vec![AStep::Interval { period, behaviour: 0, ticks: n, work: period * (u64::from(n) + 5 + rng.below(50)), off: 0, once: true }, AStep::Sleep { d: MS }] });
+            for _ in 0..rng.small(5) {
+                spec.tasks.push(TaskSpec { local, join: 0, steps: vec![AStep::Sleep { d: 10 * MS }] });
+            }
+        }
         3 => {
             // the instant is enabled by a message: a handler (or a consuming processing element) wakes waiting tasks
             let k = if big { 62 + rng.usize(cap) } else { 1 + rng.small(30) as usize };
@@ -917,7 +974,7 @@ pub fn gen_tasks_c09(rng: &mut Rng) -> Vec<TaskSpec> {
         let ns = 2 + rng.small(8) as usize;
         let mut steps: Vec<AStep> = (0..ns)
             .map(|_| match rng.below(4) {
-                0 => AStep::Interval { period: 100 * MS * (1 + rng.below(3)), behaviour: 0, ticks: 2 + rng.below(4) as u8, work: 0, off: 0 },
+                0 => AStep::Interval { period: 100 * MS * (1 + rng.below(3)), behaviour: 0, ticks: 2 + rng.below(4) as u8, work: 0, off: 0, once: false },
                 _ => AStep::Sleep { d: 250 * MS * (1 + rng.below(4)) },
             })
             .collect();
